@@ -126,6 +126,12 @@ class Serial:
         return a
 
 
+def DECOY_HEADER(box, velz):
+    """Other scale-like entries real headers carry (the hMpc=0 variant: BoxSize is in Mpc, BoxSizeHMpc differs from it).
+    None of them is the unit of a halo column."""
+    return dict(BoxSizeHMpc=float(box) * 0.6736, BoxSizeMpc=float(box), hMpc=0, H0=67.36, VelZSpace_to_Canonical=float(velz) / 3.0, ParticleMassHMsun=2.1e9, ParticleMassMsun=3.1e9, InitialRedshift=99.0, ScaleFactor=1 / 1.5, NP=64**3)
+
+
 def make_tree(rng, nslab=3, slab_inds=None, halos_per_slab=None, box=500.0, velz=1234.5, ppd=64, nprev=2, compression=None, gap_prob=0.5, zero_part_prob=0.15, cleaned_away_prob=0.15, merge_prob=0.4, trailing=True, sim='SimA', smallratio=False, root=None, max_np=12, int_header=False, clean_layout=1, big_ints=False):
     root = root or tempfile.mkdtemp(prefix='verif_cat_')
     if slab_inds is None:
@@ -147,7 +153,7 @@ def make_tree(rng, nslab=3, slab_inds=None, halos_per_slab=None, box=500.0, velz
         cleanroot = os.path.join(root, 'cleaning')
     sub_hi, sub_rp = ((), ()) if clean_layout == 4 else (('cleaned_halo_info',), ('cleaned_rvpid',))
     # headers written by other tools may hold integral values as ints
-    header = dict(BoxSize=(int(box) if int_header and float(box).is_integer() else float(box)), VelZSpace_to_kms=(int(velz) if int_header and float(velz).is_integer() else float(velz)), ppd=float(ppd), SimName=sim, Redshift=0.5, OutputType='GroupOutput', ParticleSubsampleA=0.03, ParticleSubsampleB=0.07, CPD=15)
+    header = dict(BoxSize=(int(box) if int_header and float(box).is_integer() else float(box)), VelZSpace_to_kms=(int(velz) if int_header and float(velz).is_integer() else float(velz)), ppd=float(ppd), SimName=sim, Redshift=0.5, OutputType='GroupOutput', ParticleSubsampleA=0.03, ParticleSubsampleB=0.07, CPD=15, **DECOY_HEADER(box, velz))
     cheader = dict(header, TimeSliceRedshiftsPrev=[0.6 + 0.1 * i for i in range(nprev)])
     serial = Serial()
     truth = dict(root=root, path=zdir, cleandir=cleanroot, clean_layout=clean_layout, header=header, slab_inds=list(slab_inds), slabs={}, box=box, velz=velz, ppd=ppd, nprev=nprev, sim=sim)
@@ -291,7 +297,7 @@ def make_lc_tree(rng, H=40, box=2000.0, velz=2087.0, ppd=6912, compression=None,
     """Light-cone layout: one lc_halo_info.asdf + lc_pid_rv.asdf (already unpacked pos/vel/pid)."""
     root = tempfile.mkdtemp(prefix='verif_lc_')
     zdir = os.path.join(root, 'halo_light_cones', 'SimLC', 'z0.500')
-    header = dict(BoxSize=float(box), VelZSpace_to_kms=float(velz), ppd=float(ppd), SimName='SimLC', Redshift=0.5, OutputType='GroupOutput', SimSet='AbacusSummit', ParticleSubsampleA=0.03, ParticleSubsampleB=0.07, TimeSliceRedshiftsPrev=[0.6 + 0.1 * i for i in range(nprev)])
+    header = dict(BoxSize=float(box), VelZSpace_to_kms=float(velz), ppd=float(ppd), SimName='SimLC', Redshift=0.5, OutputType='GroupOutput', SimSet='AbacusSummit', ParticleSubsampleA=0.03, ParticleSubsampleB=0.07, TimeSliceRedshiftsPrev=[0.6 + 0.1 * i for i in range(nprev)], **DECOY_HEADER(box, velz))
     raw = {}
     for name, (dt, tail, kind) in RAW_SPEC.items():
         if 'L2' in name and kind not in ('id', 'index'):
